@@ -355,3 +355,67 @@ func TestC07_Grid(t *testing.T) {
 	}
 	h.RunCases(t, "C07", cases, checkC07)
 }
+
+// C07Seq: one long-lived service provider (same key store object) whose clock moves between validations:
+// every step must be decided by the clock at that step (a certificate that was valid earlier does not stay valid).
+type C07Seq struct {
+	Base  C07Case  `json:"base"`
+	Steps []string `json:"steps"` // clock positions, in order
+	Enc   []string `json:"enc"`   // encoded message per step
+}
+
+func genC07Seq(t *rapid.T) C07Seq {
+	base := genC07(t)
+	base.SP.ValidateEncCert = rapid.IntRange(0, 3).Draw(t, "validateOn") != 0
+	base.SPCert = rapid.SampledFrom([]string{"valid", "valid", "valid", "garbage"}).Draw(t, "spCert2")
+	base.Window = rapid.SampledFrom([]string{"narrow", "narrow", "past", "future"}).Draw(t, "window2")
+	base.IdPWide = base.Window == "narrow"
+	base.Enc.To = h.CertRef{Key: "E1", Window: base.Window}
+	q := C07Seq{Base: base}
+	n := rapid.IntRange(2, 4).Draw(t, "steps")
+	for i := 0; i < n; i++ {
+		q.Steps = append(q.Steps, rapid.SampledFrom(append([]string{"inside", "inside"}, clockPositions...)).Draw(t, "pos"))
+	}
+	for _, pos := range q.Steps {
+		c := base
+		c.ClockPos = pos
+		if err := c.build(); err != nil {
+			t.Fatalf("harness: %v", err)
+		}
+		q.Enc = append(q.Enc, c.Encoded)
+	}
+	return q
+}
+
+func checkC07Seq(q C07Seq) h.Outcome {
+	o := h.Outcome{NonTrivial: true, Classes: []string{"seq", "window:" + q.Base.Window, fmt.Sprintf("validate:%v", q.Base.SP.ValidateEncCert), "store:" + q.Base.StoreKind}}
+	first := q.Base
+	first.ClockPos = q.Steps[0]
+	first.SP.NowUnixNano = clockAt(first.Window, first.ClockPos).UnixNano()
+	sp := first.buildSP()
+	for i, pos := range q.Steps {
+		c := q.Base
+		c.ClockPos, c.Encoded = pos, q.Enc[i]
+		c.SP.NowUnixNano = clockAt(c.Window, pos).UnixNano()
+		idp := h.CertRef{Key: "T1", Window: c.Window}
+		if c.IdPWide {
+			idp.Window = "wide"
+		}
+		c.SP.Store = []h.CertRef{idp, {Key: "U1", Window: "wide"}}
+		sp.Clock = dsig.NewFakeClockAt(c.SP.Now())
+		sp.IDPCertificateStore = h.Store(c.SP.Store)
+		so := judgeC07(c, func() *saml2.SAMLServiceProvider { return sp })
+		o.Classes = append(o.Classes, "step:"+pos)
+		if so.Violation != nil {
+			so.Violation.Sig = "reused-sp/" + so.Violation.Sig
+			so.Violation.Detail = fmt.Sprintf("step %d (clock %s) on a long-lived service provider after steps %v: %s", i+1, pos, q.Steps[:i], so.Violation.Detail)
+			o.Violation = so.Violation
+			return o
+		}
+	}
+	o.Classes = dedup(o.Classes)
+	return o
+}
+
+func TestC07_PSeq(t *testing.T)      { h.RunProp(t, "C07.seq", genC07Seq, checkC07Seq) }
+func TestC07_ReplaySeq(t *testing.T) { h.RunReplay(t, "C07.seq", checkC07Seq) }
